@@ -200,7 +200,9 @@ func c09Build(driver string, threads int) [][]c09Call {
 		for i := range out {
 			i := i
 			if i%2 == 0 {
-				out[i] = []c09Call{mk("bad", func(b *bytes.Buffer) error { return t.Load("p_badlate.vuego").Fill(tdata(i)).Render(bg, b) })}
+				out[i] = []c09Call{mk("bad", func(b *bytes.Buffer) error { return t.Load("p_badlate.vuego").Fill(tdata(i)).Render(bg, b) }),
+					mk("badmid", func(b *bytes.Buffer) error { return t.Load("p_badmid.vuego").Fill(tdata(i)).Render(bg, b) }),
+					mk("badattr", func(b *bytes.Buffer) error { return t.Load("p_badattr.vuego").Fill(tdata(i)).Render(bg, b) })}
 			} else {
 				out[i] = []c09Call{mk("func", func(b *bytes.Buffer) error {
 					return t.New().Fill(tdata(i)).RenderString(bg, b, `<p>{{ color | twice }}</p>`)
